@@ -482,6 +482,22 @@ def run(repo: Repo, R: Report) -> None:
         R.check(not escaped, r_ord, fn_rel, "ExpressionEvaluator.compile", "rejection propagates",
                 "an ExpressionError raised by the visitor can be swallowed and compilation/return still reached", vn.line,
                 g.path_to(seen, escaped[0]) if escaped else None)
+    # every normal return is preceded by the validation (a memoised result may be returned
+    # early only when the memo key includes the allowed names, i.e. it was validated for them)
+    if visit_nodes:
+        vset = {v.id for v in visit_nodes}
+        bad = g.must_pass([g.entry], [g.ret_exit], lambda n: n.id in vset)
+        ok_ret = True
+        why_path = None
+        if bad:
+            seen = g.reach([g.entry], blocked=vset)
+            for n in g.nodes:
+                if n.id in seen and n.kind == "stmt" and isinstance(n.ast, ast.Return) and n.id not in vset:
+                    if not _keyed_by(comp, n.ast.value, names_param):
+                        ok_ret = False
+                        why_path = g.path_to(seen, n.id)
+        R.check(ok_ret, r_ord, fn_rel, "ExpressionEvaluator.compile", "every return is preceded by validation for these allowed names",
+                "compile() can return a callable without validating the expression against this call's allowed names (e.g. a memo keyed by the text alone)", comp.lineno, why_path)
     # eval call: globals is self.env, code from compile
     r_eval = R.rule("C11-D3-eval", "eval() receives the compiled validated code, the fixed environment as globals and only the sweep variables as locals", 1)
     evals = [c for c in ast.walk(comp) if isinstance(c, ast.Call) and isinstance(c.func, ast.Name) and c.func.id == "eval"]
@@ -560,3 +576,30 @@ def run(repo: Repo, R: Report) -> None:
 def _anc(node):
     from ..engine import ancestors
     return ancestors(node)
+
+
+def _keyed_by(func, value, names_param: str) -> bool:
+    """Is *value* (a returned expression) a lookup whose key mentions *names_param*?"""
+    from ..engine import assigned_value
+
+    def expand(e, depth=0):
+        names = {n.id for n in ast.walk(e) if isinstance(n, ast.Name)}
+        if depth < 2:
+            for nm in list(names):
+                for rhs in assigned_value(func, nm):
+                    names |= expand(rhs, depth + 1)
+        return names
+
+    exprs = [value] if value is not None else []
+    if isinstance(value, ast.Name):
+        exprs = assigned_value(func, value.id)
+    for e in exprs:
+        for n in ast.walk(e):
+            key = None
+            if isinstance(n, ast.Subscript):
+                key = n.slice
+            elif isinstance(n, ast.Call) and call_attr(n) in ("get", "setdefault") and n.args:
+                key = n.args[0]
+            if key is not None and names_param in expand(key):
+                return True
+    return False
